@@ -69,6 +69,14 @@ func runProp(cfg *vc.Config, rep *vc.Report, gen func(*vc.Rand) *Scenario, oracl
 		account(rep, cfg, -2, 0, sc, run, oracle(run.Obs))
 		rep.Inc("batch_boundary_scenarios")
 	}
+	if cfg.Mode == "burst" {
+		kind := map[string]string{"C07": "ik", "C11": "reference"}[cfg.Prop]
+		rounds := cfg.Count(4000, 100000)
+		run := runBurst(rounds, 8, kind)
+		rep.Add("burst_rounds", int64(rounds))
+		account(rep, cfg, -3, 0, &Scenario{Kind: "burst-" + kind}, run, oracle(run.Obs))
+		return
+	}
 	cfg.Cases(quick, thorough, func(i int, r *vc.Rand) {
 		sc := gen(r.Fork())
 		for k := 0; k < nSched; k++ {
@@ -96,6 +104,16 @@ func account(rep *vc.Report, cfg *vc.Config, i, k int, sc *Scenario, run *Scenar
 	rep.Inc("schedules")
 	o := run.Obs
 	if run.Stalled != "" {
+		// what was observed up to the stall is still judged (the oracles are safety properties over the recorded history)
+		if o != nil {
+			seen := map[string]bool{}
+			for _, f := range fs {
+				if !seen[f.Rule] {
+					seen[f.Rule] = true
+					rep.Violate(f.Rule, f.What, i, map[string]any{"index": i, "schedule": k, "scenario": planJSON(sc), "log_ids": logIDs(o), "stalled": run.Stalled})
+				}
+			}
+		}
 		rep.Inconc(fmt.Sprintf("scenario %d schedule %d: %s", i, k, run.Stalled))
 		rep.Inc("stalled")
 		stalls++
@@ -134,6 +152,21 @@ func account(rep *vc.Report, cfg *vc.Config, i, k int, sc *Scenario, run *Scenar
 			open++
 		} else if r.Res.OK {
 			rep.Inc("req_ok_" + r.Op.Kind)
+			if r.Op.Kind == "postings" {
+				amts := map[string]string{}
+				for _, p := range r.Op.Postings {
+					if p.Amount == "0" && p.Source != "world" {
+						rep.Inc("accepted_postings_with_zero_amount_from_account")
+					}
+					if as, ok := amts[p.Amount]; ok && as != p.Asset {
+						rep.Inc("accepted_postings_same_amount_two_assets")
+					}
+					amts[p.Amount] = p.Asset
+					if p.Source == p.Destination {
+						rep.Inc("accepted_postings_self_transfer")
+					}
+				}
+			}
 		} else {
 			rep.Inc("req_err_" + r.Res.Class)
 			if r.Res.Class == "other" || strings.HasPrefix(r.Res.Class, "http-") {
@@ -241,6 +274,15 @@ func runC06(cfg *vc.Config, rep *vc.Report) {
 		rep.Max("max_batch_size", int64(max))
 		account(rep, cfg, -2, 0, &Scenario{Kind: "big-batch"}, run, checkAckPersist(run.Obs))
 		rep.Inc("batch_boundary_scenarios")
+	}
+	if cfg.Mode == "failstorm" {
+		// store failures while many writers keep the runner busy (free-running): whatever is acknowledged must be persisted
+		cfg.Cases(400, 20000, func(i int, r *vc.Rand) {
+			run := runFailStorm(r.Fork())
+			rep.Inc("failstorm_rounds")
+			account(rep, cfg, i, 0, &Scenario{Kind: "failstorm"}, run, checkAckPersist(run.Obs))
+		})
+		return
 	}
 	cfg.Cases(40, 1200, func(i int, r *vc.Rand) {
 		sc := genWrites(r.Fork())
